@@ -146,3 +146,8 @@ def reduce_line(line):
 def shape_key(case, results):
     t = (case[0].split() if case else []) + ["?", "?", "?"]
     return "vote-%s" % t[1]
+
+SOURCE_TIE = "Source-level tie by proof (Tie/Voting, Props/C17s): TopNVoting::winners and BestFitVoting::winners as regenerated from the source (hash order of into_group_map a parameter) equal the model's topn / bestfit."
+LEVEL_TEXT = LEVEL_TEXT + " " + SOURCE_TIE
+TRUSTED_BASE = TRUSTED_BASE + ["translator/kernels.py + rustexpr.py (reader of the Rust subset, per-function tables) for the functions named in SOURCE_TIE; generated definitions are proof obligations (Tie modules) on every run"]
+TECHNIQUE = TECHNIQUE + "; model regenerated from the source by a translator for the functions of SOURCE_TIE, tied by proof"
